@@ -202,7 +202,12 @@ func init() {
 			}
 			r.Check(fa.Dominates(set, pay), fk, "history persisted before payout", "SetDelegation dominates the transfer", "the payout can happen without the updated history being persisted", r.P(pay))
 			sv := CallsTo(fn, "keeper.Keeper.ClaimValidatorRewards")
-			okV := len(sv) == 1 && fa.Dominates(sv[0], calc) && argT(fa, sv[0], 1).Eq(argT(fa, calc, 2))
+			okV := false
+			for _, c := range sv {
+				if fa.Dominates(c, calc) && argT(fa, c, 1).Eq(argT(fa, calc, 2)) {
+					okV = true
+				}
+			}
 			r.Check(okV, fk, "validator settled before calculating", "ClaimValidatorRewards(val) dominates CalculateDelegationRewards(.., val, ..)", "the entitlement is calculated without first pulling the validator's pending rewards into the index", r.P(calc))
 			// calculate returns the validator's current history for the asset
 			if cf := r.Need("keeper.Keeper.CalculateDelegationRewards"); cf != nil {
@@ -310,6 +315,31 @@ func init() {
 						r.OK(fk, "withdrawn coins are indexed", "every success path after the withdrawal passes AddAssetsToRewardPool", r.P(add))
 					}
 				}
+			}
+		}})
+
+	register(&Rule{ID: "C13.claimsettles", Props: []string{"C13"}, Floor: 1,
+		Doc: "a delegation claim settles the validator on every success path (callers that grow or shrink an existing position rely on it)",
+		Run: func(e *Engine, r *RuleRun) {
+			fn := r.Need("keeper.Keeper.ClaimDelegationRewards")
+			if fn == nil {
+				return
+			}
+			fk, fa := FuncKey(fn), e.FA(fn)
+			var via []ssa.Instruction
+			for _, c := range CallsTo(fn, "keeper.Keeper.ClaimValidatorRewards") {
+				if argT(fa, c, 1).String() == "$val" {
+					via = append(via, c)
+				}
+			}
+			if len(via) == 0 {
+				r.Bad(fk, "every successful claim settles the validator", "ClaimDelegationRewards no longer calls ClaimValidatorRewards(val)", nil, e.Pos(fn.Pos()))
+				return
+			}
+			if trail := fa.EntryMustPass(via); trail != nil {
+				r.Bad(fk, "every successful claim settles the validator", "ClaimDelegationRewards can return success without having pulled the validator's pending rewards (ClaimValidatorRewards): Delegate, Redelegate and Undelegate use this call as THE settlement before they change an existing position, so stake added on such a path is recorded against the old indices and later shares in rewards that accrued before it existed", trail, r.P(via[0]))
+			} else {
+				r.OK(fk, "every successful claim settles the validator", "every success path passes ClaimValidatorRewards(val)", r.P(via[0]))
 			}
 		}})
 
